@@ -606,6 +606,64 @@ theorem processUpdates_def (r : Routes) (held : Roa → Bool) (u : RoaUpdates) :
              (u.added.foldl (addStep held) (u.removed.foldl removeStep { desired := r })).evs)
       else .error (u.added.foldl (addStep held) (u.removed.foldl removeStep { desired := r })).errs := rfl
 
+theorem badAddition_isSome (base : Routes) (held : Roa → Bool) (pre : List RoaConf) (c : RoaConf) :
+    (∃ k, Spec.badAddition base held pre c = some k) ↔
+      (maxLengthValid c.payload = false ∨ held c.payload = false ∨
+        (Spec.present base held pre c.payload = true ∧ Spec.commentOf base held pre c.payload = c.comment)) := by
+  unfold Spec.badAddition
+  by_cases h1 : maxLengthValid c.payload = true
+  · by_cases h2 : held c.payload = true
+    · by_cases h3 : Spec.present base held pre c.payload = true
+      · by_cases h4 : Spec.commentOf base held pre c.payload = c.comment
+        · simp [h1, h2, h3, h4]
+        · simp [h1, h2, h3, h4]
+      · simp [h1, h2, h3]
+    · simp [h1, h2]
+  · simp [h1]
+
+theorem expected_empty_iff (r : Routes) (held : Roa → Bool) (u : RoaUpdates) :
+    (Spec.expectedErrors r held u).isEmpty = true ↔ ¬ Spec.SomeEntryBad r held u := by
+  unfold DeltaError.isEmpty Spec.expectedErrors
+  simp only [Bool.and_eq_true, List.isEmpty_iff]
+  rw [unknowns_nil_iff, badAdditions_nil_iff, badAdditions_nil_iff, badAdditions_nil_iff]
+  unfold Spec.SomeEntryBad
+  constructor
+  · rintro ⟨⟨⟨hD, hN⟩, hU⟩, hI⟩ hbad
+    rcases hbad with ⟨pre, p, post, hs, hb⟩ | ⟨pre, c, post, hs, hb⟩
+    · have := hU pre p post hs
+      unfold Spec.badRemoval at this
+      simp only [List.nil_append, Bool.or_eq_false_iff, Bool.not_eq_false'] at this
+      rcases hb with hb | hb
+      · rw [hb] at this; exact absurd this.1 (by simp)
+      · have hc : pre.contains p = true := by simpa using hb
+        rw [hc] at this; exact absurd this.2 (by simp)
+    · obtain ⟨k, hk⟩ := (badAddition_isSome _ held pre c).mpr hb
+      cases k with
+      | invalidLength => exact hI pre c post hs (by simpa using hk)
+      | notHeld => exact hN pre c post hs (by simpa using hk)
+      | duplicate => exact hD pre c post hs (by simpa using hk)
+  · intro hno
+    refine ⟨⟨⟨?_, ?_⟩, ?_⟩, ?_⟩
+    · intro pre c post hs hk
+      exact hno (Or.inr ⟨pre, c, post, hs, (badAddition_isSome _ held pre c).mp ⟨_, by simpa using hk⟩⟩)
+    · intro pre c post hs hk
+      exact hno (Or.inr ⟨pre, c, post, hs, (badAddition_isSome _ held pre c).mp ⟨_, by simpa using hk⟩⟩)
+    · intro pre p post hs
+      unfold Spec.badRemoval
+      simp only [List.nil_append, Bool.or_eq_false_iff, Bool.not_eq_false']
+      refine ⟨?_, ?_⟩
+      · apply Classical.byContradiction
+        intro h
+        have : r.has p = false := by simpa using h
+        exact hno (Or.inl ⟨pre, p, post, hs, Or.inl this⟩)
+      · apply Classical.byContradiction
+        intro h
+        have : p ∈ pre := by simpa using h
+        exact hno (Or.inl ⟨pre, p, post, hs, Or.inr this⟩)
+    · intro pre c post hs hk
+      exact hno (Or.inr ⟨pre, c, post, hs, (badAddition_isSome _ held pre c).mp ⟨_, by simpa using hk⟩⟩)
+
+
 /-! ## ASPA -/
 
 namespace AspaDefs
@@ -889,5 +947,11 @@ theorem bgpsecAddFold (holdsAsn : Nat → Bool) (adds : List BgpsecDef)
         rcases List.mem_cons.mp hx with rfl | hx'
         · unfold bgpsecBadDef at hbx; simp [hb'.1, hb'.2] at hbx
         · exact ⟨x, hx', hbx⟩
+
+theorem children_get_none (s : Children) (h : String) :
+    s.get? h = none ↔ s.has h = false := by
+  unfold Children.get? Children.has
+  rw [Option.map_eq_none_iff, List.find?_eq_none, List.any_eq_false]
+
 
 end KM.Ca
